@@ -24,8 +24,8 @@
 (*     successor of positive probability, and does not leave absorbing states.            *)
 (* (P) In every state the walk can be in, the clauses of the statement are evaluated on   *)
 (*     the logged numbers; TLC decides, and prints a verdict record per failing state and  *)
-(*     a summary per instance.  Rows of absorbing states are not judged (nothing in the    *)
-(*     semantics depends on them) but the predicates GhostOutside / ZeroOutside name the   *)
+(*     a summary per instance.  Of the rows of absorbing states only normalisation is     *)
+(*     judged (their successors are never expanded) and the predicates GhostOutside / ZeroOutside name the   *)
 (*     input shapes on which msdm's array builders index entries outside the lists.        *)
 (* Tolerance (derived): an entry is rounded by at most 1/2 unit, the float sum of a row of *)
 (* n entries is within n * 2^-52 of the exact sum, so a normalised row of n logged entries  *)
@@ -52,7 +52,8 @@ Bad(m, s) ==
   IF s = 0 THEN {"successor-outside-state-list"}
   ELSE
   (IF Len(m.T[s]) = 0 THEN {"no-action"} ELSE {})
-  \cup (IF m.abs[s] = 0 /\ \E j \in 1..Len(m.T[s]) : ~RowOK(m, m.T[s][j]) THEN {"transition-not-normalised"} ELSE {})
+  \* normalisation is asked of EVERY listed state, absorbing ones included (their rows end up in the arrays)
+  \cup (IF \E j \in 1..Len(m.T[s]) : ~RowOK(m, m.T[s][j]) THEN {"transition-not-normalised"} ELSE {})
   \cup (IF m.abs[s] = 0 /\ \E e \in Entries(m, s) : m.T[s][e[1]][e[2]][2] > 0 /\ m.RF[s][e[1]][e[2]] = 0
         THEN {"reward-not-finite"} ELSE {})
   \cup (IF m.NO > 0 /\ \E a \in 1..Len(m.O) : ~RowOK(m, m.O[a][s]) THEN {"observation-not-normalised"} ELSE {})
